@@ -1,4 +1,5 @@
 import datetime
+import decimal
 import functools
 import math
 import re
@@ -811,7 +812,10 @@ class ValueDecimal(Value):
 
     def __repr__(self):
         result = repr(self.value)
-        if "." not in result:
+        if "e" in result:
+            # positional notation, so that the text is a decimal literal
+            result = format(decimal.Decimal(result), "f")
+        if "." not in result and result[-1] in "0123456789":
             result += ".0"
         return result
 
